@@ -12,7 +12,7 @@ import ast
 from ..astutil import ancestors, body_always_raises, calls_in, dotted, enclosing_stmt, is_within, src, walk_local
 from ..cfg import cfg_of, deref_at
 from ..loader import AnalysisError
-from ..terms import Evaluator, alts, backend_method, contains, find, show, walk
+from ..terms import Evaluator, alts, backend_method, contains, find, show, strip_sites, walk
 from . import shared
 from .common import (
     backend_events,
@@ -229,16 +229,32 @@ def r3_tag_relation(ctx):
         'chunk writer [encrypted]: name = hex(mac(digest)), tag = hex(mac(<name bytes>))',
         f'chunk writer relation changed: {show(r, limit=200)}',
     )
-    w2 = corpus.func('repository', 'Repository._snapshot_digest_to_location_parts')
-    ctx.analysed(w2)
-    ev2 = Evaluator(corpus, modes={'encrypted': True}, depth=4)
-    r2 = ev2.run(w2)
-    ok2 = False
-    if r2[0] == 'record':
-        f = dict(r2[2])
-        name, tag = f.get('name'), f.get('tag')
-        if name and tag and name[0] == 'call' and name[1][0] == 'attr' and name[1][2] == 'hex' and tag[0] == 'call' and tag[1][0] == 'attr' and tag[1][2] == 'hex':
-            ok2 = name[1][1] == ('param', 'digest') and _mac_arg(tag[1][1]) == ('param', 'digest')
+    if corpus.has_func('repository', 'Repository._snapshot_digest_to_location_parts'):
+        w2 = corpus.func('repository', 'Repository._snapshot_digest_to_location_parts')
+        ctx.analysed(w2)
+        ev2 = Evaluator(corpus, modes={'encrypted': True}, depth=4)
+        r2 = ev2.run(w2)
+        ok2 = False
+        if r2[0] == 'record':
+            f = dict(r2[2])
+            name, tag = f.get('name'), f.get('tag')
+            if name and tag and name[0] == 'call' and name[1][0] == 'attr' and name[1][2] == 'hex' and tag[0] == 'call' and tag[1][0] == 'attr' and tag[1][2] == 'hex':
+                ok2 = name[1][1] == ('param', 'digest') and _mac_arg(tag[1][1]) == ('param', 'digest')
+    else:
+        # the helper is written out in snapshot(): judge the (name, tag) pair that reaches get_snapshot_location
+        w2 = corpus.func('repository', 'Repository.snapshot')
+        ctx.analysed(w2)
+        ev2 = evaluate(corpus, w2, modes={'encrypted': True}, depth=5)
+        sites = [e for e in ev2.events if e.callee[0] == 'bound' and e.callee[-1].endswith('.get_snapshot_location')]
+        ctx.floor('C08.R3', 'snapshot location construction in snapshot()', len(sites))
+        ok2, r2 = True, ('const', None)
+        for e in sites:
+            kws = dict(e.kwargs)
+            name, tag = strip_sites(kws.get('name')) if kws.get('name') else None, strip_sites(kws.get('tag')) if kws.get('tag') else None
+            r2 = ('tuple', (name, tag))
+            good = bool(name and tag and name[0] == 'call' and name[1][0] == 'attr' and name[1][2] == 'hex' and tag[0] == 'call' and tag[1][0] == 'attr' and tag[1][2] == 'hex')
+            good = good and _mac_arg(tag[1][1]) is not None and _mac_arg(tag[1][1]) == name[1][1] and contains(name[1][1], lambda y: y[0] == 'call' and y[1][0] == 'attr' and y[1][2] in ('hash_digest', 'digest'))
+            ok2 = ok2 and good
     ctx.check(
         ok2,
         'C08.R3',
